@@ -25,7 +25,7 @@ PROBES = ('line_dash', 'line_dash_space', 'line_from', 'line_armor_like', 'line_
           'visible_change_rejected', 'hash_header_checked', 'non_latin1')
 LINES = ['plain text line', '- dash then space', '-dash', '--', '-----BEGIN PGP SIGNATURE-----', '-----BEGIN PGP SIGNED MESSAGE-----',
          'From the start of line', '', '', 'trailing space ', 'trailing tab\t', 'both \t ', ' leading', 'ünï cödé', 'x' * 300,
-         '- ', 'Hash: SHA256', 'a: b', '=abcd', 'snow ☃ man']
+         '- ', 'Hash: SHA256', 'a: b', '=abcd', 'snow ☃ man', 'Ã© is not é', '日本語 € ']
 
 
 def gen_text(rng, non_ascii=True):
@@ -46,14 +46,14 @@ def gen_text(rng, non_ascii=True):
 
 def generate(rng, tier):
     steps = []
-    # known finding C11:non-ascii-cleartext:* (armored cleartext that is not pure ASCII cannot be loaded): its trigger
-    # - non-ASCII lines - is enabled in a minority of runs so that the rest of the space stays covered
-    non_ascii = rng.random() < 0.12
+    # texts with lines outside ASCII (once a known finding, repaired in /repo fd865f1; reported as C11:non-ascii-cleartext:load)
+    non_ascii = rng.random() < 0.3
     for i in range(rng.randint(2, 6 if tier == 'thorough' else 4)):
         steps.append({'id': 's%d' % i, 'op': rng.choice(['pgpy_sign', 'pgpy_sign', 'ref_sign']), 'text': gen_text(rng, non_ascii),
                       'hash': rng.choice([8, 8, 10, 9, 11, 2, 1]), 'nsigners': rng.choice([1, 1, 2]),
                       'gateway': rng.sample(['crlf', 'strip_blanks', 'add_blanks'], rng.choice([0, 1, 1, 2])),
-                      'as_bytes': rng.random() < 0.3, 'change_pos': rng.random()})
+                      'as_bytes': rng.random() < 0.3, 'change_pos': rng.random(),
+                      'deliver': rng.choice(['str', 'str', 'bytes', 'bytearray', 'file'])})
     return {'config': {'keys': {'k0': {'alg': rng.choice(['ed25519', 'ed25519', 'p256', 'p384', 'rsa2048' if rng.random() < 0.15 else 'ed25519', 'dsa2048' if rng.random() < 0.1 else 'secp256k1']),
                                        'uids': [['Clear Signer', '', 'c@example.org']], 'subkeys': [], 'usage': 'CS', 'created_us': 1_500_000_000_000_000},
                                 'k1': {'alg': 'ed25519', 'uids': [['Second Signer', '', 'd@example.org']], 'subkeys': [], 'usage': 'CS',
@@ -165,8 +165,13 @@ def execute(case, ctx):
         ctx.mark_nontrivial('|'.join(shapes))
 
 
-def _load(pgpy, armored, as_bytes):
-    blob = armored.encode('utf-8') if as_bytes else armored
+def _load(pgpy, armored, st):
+    how = st.get('deliver') or ('bytes' if st.get('as_bytes') else 'str')
+    if how == 'file':
+        p = seams.SimFS.ROOT + 'c11-%s.asc' % st['id']
+        seams.fs().write(p, armored.encode('utf-8'))
+        return pgpy.PGPMessage.from_file(p)
+    blob = {'str': armored, 'bytes': armored.encode('utf-8'), 'bytearray': bytearray(armored.encode('utf-8'))}[how]
     return pgpy.PGPMessage.from_blob(blob)
 
 
@@ -232,11 +237,11 @@ def _pgpy_sign(pgpy, w, st, ctx, cls, shapes):
 def _verify_after(pgpy, ctx, armored, pubs, st, cls, text, how, exact):
     ctx.checked()
     try:
-        m = _load(pgpy, armored, st.get('as_bytes'))
+        m = _load(pgpy, armored, st)
     except Exception as e:
         ctx.viol('C11:non-ascii-cleartext:load' if 'non_ascii' in cls else 'C11:cannot-read-back:%s' % how,
                  'PGPy cannot load the cleartext message (%s, delivered as %s, text classes %s): %s: %s'
-                 % (how, 'bytes' if st.get('as_bytes') else 'str', sorted(cls), type(e).__name__, e))
+                 % (how, st.get('deliver') or ('bytes' if st.get('as_bytes') else 'str'), sorted(cls), type(e).__name__, e))
         return
     if exact and m.message != text:
         ctx.viol('C11:non-ascii-cleartext:load' if 'non_ascii' in cls else 'C11:text-read-back-differs',
@@ -277,7 +282,7 @@ def _changed(pgpy, ctx, armored, pubs, st):
     ctx.fault('visible_change')
     ctx.checked()
     try:
-        m = _load(pgpy, mut, st.get('as_bytes'))
+        m = _load(pgpy, mut, st)
         ok = all(bool(p.verify(m)) for p in pubs)
     except Exception:
         ok = False
@@ -300,7 +305,7 @@ def _ref_sign(pgpy, ref_pgpy_key, rpub, rsecret, st, ctx, cls, shapes):
         wire = gateway(armored, kinds, ctx) if kinds else armored
         ctx.checked()
         try:
-            m = _load(pgpy, wire, st.get('as_bytes'))
+            m = _load(pgpy, wire, st)
         except Exception as e:
             ctx.viol('C11:non-ascii-cleartext:load' if 'non_ascii' in cls else 'C11:cannot-read-foreign:%s' % how,
                      'PGPy cannot load a reference-peer cleartext message (%s, classes %s): %s: %s' % (how, sorted(cls), type(e).__name__, e))
